@@ -848,6 +848,11 @@ impl Placed {
         let start = if at_end { arena.len() - len } else { 2048 + mis };
         Placed { arena, start, len }
     }
+    /// a container of any length (the arena grows with it)
+    pub fn new_large(len: usize) -> Placed {
+        let arena = Arena::new(len / 4096 + 3);
+        Placed { arena, start: 2048, len }
+    }
     pub fn ptr(&self) -> *mut u8 {
         unsafe { self.arena.ptr().add(self.start) }
     }
